@@ -109,7 +109,7 @@ CHECKS.update({
             'All histories of length <=3 (quick) / <=4 (thorough) over the event '
             'alphabet (3 regexes x 3-4 operator selectors x 6-8 config/algorithm '
             'combinations incl. refused ones, 4 loads) are replayed on fresh '
-            'objects; at every state the exported rule list and a 25-entry '
+            'objects; at every state the exported rule list and a 31-entry '
             'resolution table equal the reference model, queries are pure, '
             'refused calls do not change state, states reached through different '
             'histories resolve identically, and the table is also queried '
